@@ -242,9 +242,13 @@ pub fn real_login(i: &LoginInput) -> Result<(RealLogin, SrpServer, wow_srp::clie
     let r = real_login_inner(i);
     let (used, log) = verif_hooks::finish();
     let r = r?;
-    if used != 112 || log.len() != 4 {
+    // the harness must own the three draws that matter (salt, b, a, in this order); further draws
+    // (reconnect challenge, anything a later version adds) are served from the script tail and are
+    // none of this function's business
+    let owns = log.len() >= 3 && log[0].bytes == i.salt && log[1].bytes == i.b && log[2].bytes == i.a && used >= 96;
+    if !owns {
         return Err(LoginFail::Rng(format!(
-            "expected 4 draws / 112 scripted bytes, saw {} draws / {} bytes: {:?}",
+            "the first three RNG draws are not the scripted salt, b, a: saw {} draws / {} bytes: {:?}",
             log.len(),
             used,
             log.iter().map(|d| (d.file, d.line, d.bytes.len())).collect::<Vec<_>>()
